@@ -5,7 +5,7 @@ value it denotes; REAL: exact description, IEEE rounding delegated - partial).  
 and to_python against the real ones (codec harness) and against the real SnmpSession (get, get_many, getnext,
 getbulk; sync and async; v1, v2c, v3 plain/auth/DES/AES).  Oracle: three-way comparison with the value the
 generator intended, computed independently (harness/py/ber.py, lib/gen.py)."""
-from lib import codec, gen, vf
+from lib import codec, gen, pylayer, vf
 import ber
 
 CODEC_PREFIX = {"int": "int", "c32": "c32", "g32": "g32", "tt": "tt", "u32": "u32", "c64": "c64", "os": "os", "op": "op", "od": "od",
@@ -215,6 +215,10 @@ def main(argv):
                                 key="api-full-buffer:%s" % ("exact" if sent == MAXB else "below"))
     c.assumptions += ["REAL: the model decodes to an exact description (sign, mantissa, power of two / decimal text / special value); "
                       "the final IEEE-754 rounding is not modelled, the correctly rounded value is computed by the harness (partial)"]
+    # ---- the Python layer alone (single calls, iterators, several objects on one session) on scripted socket results,
+    # against Model.PyLayer (lib/pylayer.py): what the socket hands over reaches the right caller, once, in order
+    n_pl, d_pl = pylayer.run(c, cd.model, c.rng, 1500 if thorough else 300, "C02")
+    c.coverage["python_layer_cases"] = n_pl
     return c.finish(
         rule="single values of every kind in every legal encoding (minimal and padded integers, long-form lengths, REAL decimal/special/binary), "
              "responses of 0..12 varbinds through get/get_many to_python, and %d API calls (get, get_many 0..40 varbinds, getnext, getbulk; "
